@@ -148,22 +148,36 @@ class WriterCapture:
         V.PhasedVcfWriter.write = self._orig
 
 
-def writable_calls(samples, records):
+def eligible_records(records, only_snvs=False):
     """
-    Which (chrom, sample, pos) can carry a phase statement written by the phased writer: first record
-    at its position, has exactly one ALT, genotype fully called and heterozygous.
+    indices of the records the phased writer (and the reader) treat as *the* variant of their position:
+    has exactly one ALT, passes the --only-snvs filter, and is the first such record at its position
     """
     out = set()
     seen = set()
-    for r in records:
+    for j, r in enumerate(records):
         key = (r["chrom"], r["pos"])
-        if not r["alts"]:
+        if not r["alts"] or len(r["alts"]) > 1:
             continue
-        if len(r["alts"]) > 1:
+        if only_snvs and not (len(r["ref"]) == 1 and len(r["alts"][0]) == 1):
             continue
         if key in seen:
             continue
         seen.add(key)
+        out.add(j)
+    return out
+
+
+def writable_calls(samples, records, only_snvs=False):
+    """
+    Which (chrom, sample, pos) can carry a phase statement written by the phased writer: eligible
+    record, genotype fully called and heterozygous.
+    """
+    out = set()
+    elig = eligible_records(records, only_snvs)
+    for j, r in enumerate(records):
+        if j not in elig:
+            continue
         for s in samples:
             gt = r["calls"][s]["gt"]
             if gt is None or any(a is None for a in gt):
@@ -554,6 +568,8 @@ def gen_store_case(rng, prop, tier):
             op = {"op": name, "lib": rng.choice(["L0", "L0", "L1"]), "noref": rng.random() < 0.15}
             if name == "phase":
                 op["tag"] = rng.choice(["PS", "HP"])
+                if rng.random() < 0.15:
+                    op["only_snvs"] = True
             if len(samples) > 1 and rng.random() < 0.35:
                 op["samples"] = sorted(rng.sample(samples, rng.randrange(1, len(samples))), key=samples.index)
             if len(chroms) > 1 and rng.random() < 0.3:
@@ -623,14 +639,14 @@ class StoreRun:
         self.initial_unphased_path = None
 
     # -- whatshap invocations
-    def _phase(self, inputs, variant_file, out, tag, samples=None, chroms=None, noref=False):
+    def _phase(self, inputs, variant_file, out, tag, samples=None, chroms=None, noref=False, only_snvs=False):
         from whatshap.cli.phase import run_whatshap
 
         with WriterCapture() as cap:
             run_whatshap(
                 phase_input_files=inputs, variant_file=variant_file, output=out,
                 reference=False if noref else os.path.join(self.dir, "ref.fa"),
-                samples=samples, chromosomes=chroms, tag=tag, write_command_line_header=False,
+                samples=samples, chromosomes=chroms, tag=tag, write_command_line_header=False, only_snvs=only_snvs,
             )
         written = {}
         for entry in cap.calls:
@@ -666,7 +682,7 @@ class StoreRun:
             return False, None
 
     # -- oracles
-    def check_phase_output(self, what, out, tag, written, touched, target_samples, target_chroms, prev_model):
+    def check_phase_output(self, what, out, tag, written, touched, target_samples, target_chroms, prev_model, only_snvs=False):
         """R1, R2, R3 after a phase-like operation"""
         try:
             samples, _, recs = raw_records(out)
@@ -674,17 +690,14 @@ class StoreRun:
             self.add("C09", "output-unreadable", "%s: output cannot be parsed: %s" % (what, e), "output-unreadable")
             return None
         in_samples, _, in_recs = raw_records(self.last_input)
-        can = writable_calls(in_samples, in_recs)
+        can = writable_calls(in_samples, in_recs, only_snvs)
         expected = {k: v for k, v in written.items() if k in can}
         self.stats.inc("written_statements", len(expected))
         targets = {(c, s) for c in target_chroms for s in target_samples}
         # R2: statements present in the raw output for target samples
-        first_seen = set()
-        for r in recs:
-            key = (r["chrom"], r["pos"])
-            first = key not in first_seen and bool(r["alts"]) and len(r["alts"]) == 1
-            if r["alts"] and len(r["alts"]) == 1:
-                first_seen.add(key)
+        elig = eligible_records(recs, only_snvs)
+        for j, r in enumerate(recs):
+            first = j in elig
             for s in samples:
                 if (r["chrom"], s) not in targets:
                     continue
@@ -770,18 +783,29 @@ class StoreRun:
         if not self.enabled_tag(tag, tsamples, tchroms):
             self.stats.inc("skipped_ops_mixed_tag")
             return True
+        if op.get("only_snvs"):
+            # with --only-snvs a later SNV record at the position of a skipped indel becomes "the" variant of
+            # that position; the full-view decoder would then look at a different record than the run did.
+            pos = [(r["chrom"], r["pos"]) for r in self.world["records"]]
+            if len(pos) != len(set(pos)):
+                op = dict(op)
+                op.pop("only_snvs")
+                self.stats.inc("only_snvs_dropped_duplicate_positions")
         out = self.newfile("phase_%s" % tag)
         self.last_input = self.current
-        what = "op %d phase(lib=%s,tag=%s%s%s)" % (i, lib, tag, ",samples=%s" % ",".join(tsamples) if op.get("samples") else "",
-                                                    ",chroms=%s" % ",".join(tchroms) if op.get("chroms") else "")
+        what = "op %d phase(lib=%s,tag=%s%s%s%s)" % (i, lib, tag, ",samples=%s" % ",".join(tsamples) if op.get("samples") else "",
+                                                      ",chroms=%s" % ",".join(tchroms) if op.get("chroms") else "",
+                                                      ",only_snvs" if op.get("only_snvs") else "")
         had_phase = any((c, s) in self.tag_of for c in tchroms for s in tsamples)
         ok, res = self.guarded(what, lambda: self._phase([self.libs[lib]], self.current, out, tag,
                                                          samples=op.get("samples") and tsamples, chroms=op.get("chroms") and tchroms,
-                                                         noref=op.get("noref", False)), "C09", "phase-crashed")
+                                                         noref=op.get("noref", False), only_snvs=op.get("only_snvs", False)), "C09", "phase-crashed")
         if not ok:
             return False
         written, touched = res
         self.stats.inc("op_phase")
+        if op.get("only_snvs"):
+            self.stats.inc("phase_only_snvs")
         if had_phase:
             prevtags = {self.tag_of.get((c, s)) for c in tchroms for s in tsamples} - {None}
             self.stats.inc("rephase_same_tag" if prevtags == {tag} else "rephase_other_tag")
@@ -790,7 +814,7 @@ class StoreRun:
         if op.get("chroms"):
             self.stats.inc("phase_chrom_subset")
         prev = dict(self.model)
-        dec = self.check_phase_output(what, out, tag, written, touched, tsamples, tchroms, prev)
+        dec = self.check_phase_output(what, out, tag, written, touched, tsamples, tchroms, prev, only_snvs=op.get("only_snvs", False))
         if dec is None:
             return False
         for c in tchroms:
@@ -1124,7 +1148,7 @@ class HistEngine(Engine):
             size //= 2
         # simplify op arguments
         for j, o in enumerate(ops):
-            for key in ("samples", "chroms", "noref"):
+            for key in ("samples", "chroms", "noref", "only_snvs"):
                 if o.get(key):
                     cand = dict(case)
                     o2 = dict(o)
